@@ -423,6 +423,35 @@ def r10(ctx):
     C14.open_opts_builders(ctx, "C12.R10")
     ctx.floor("C12.R10", 2)
 
+def r11(ctx):
+    """"unsubscribing or dropping one subscriber does not affect the others" - nor does closing a document: the library only ever
+    *drops* its clone of a subscriber's sender. `Sender::close()` closes the channel for every clone - the same sender may be
+    subscribed to other documents (the engine's own replica-event sender is) - so nothing in the crate calls it (or
+    `Receiver::close()` of an event channel) on a channel of sync::Event; the detector must see the one legitimate close of an
+    async_channel endpoint in the crate, the store actor's inbox, or it fails closed"""
+    f = ctx.facts
+    seen_inbox = 0
+    bad = []
+    for b in f.bodies.values():
+        if b.rec.get("derived"):
+            continue
+        for bi, t in b.calls():
+            if t["f"].get("name") != "close" or mir.is_noise(t.get("x")):
+                continue
+            full = (t["f"].get("full") or "") + " " + (t["f"].get("res") or "")
+            if "async_channel" not in full:
+                continue
+            if "sync::Event" in full:
+                bad.append((b, t))
+            elif "actor::Action" in full:
+                seen_inbox += 1
+    if seen_inbox < 1:
+        raise mir.AnchorMissing("the store actor's inbox close was not found: the detector no longer sees close() on async_channel endpoints")
+    for b, t in bad:
+        ctx.bad("C12.R11", b.rec.get("root") or b.path, "closes-a-subscriber-channel", "close() on a channel of replica events: every clone of that sender - also the one subscribed to another document - stops receiving", t["sp"])
+    ctx.ok("C12.R11", "crate", "subscriber-channels-are-dropped-never-closed", "%d close() calls on event channels; inbox close seen %d time(s)" % (len(bad), seen_inbox), None)
+    ctx.floor("C12.R11", 1)
+
 def run(ctx):
     ctx.run_rule("C12.R1", r1)
     ctx.run_rule("C12.R2", r2)
@@ -434,3 +463,4 @@ def run(ctx):
     ctx.run_rule("C12.R8", r8)
     ctx.run_rule("C12.R9", r9)
     ctx.run_rule("C12.R10", r10)
+    ctx.run_rule("C12.R11", r11)
